@@ -4,7 +4,7 @@ from collections import Counter
 
 from .. import coqenc as E
 from ..runner import jval
-from ..valgen import Gen, type_exact_eq
+from ..valgen import Gen, type_exact_eq, share_equal
 from ..condgen import CondGen
 from ..pathgen import PathGen
 from ..rulegen import RuleGen
@@ -38,7 +38,22 @@ def snapshot(x, ids):
     return ("object", id(x))
 
 
+def json_copy(x):
+    """A copy sharing no container with anything (copy.deepcopy keeps aliases)."""
+    if isinstance(x, list):
+        return [json_copy(i) for i in x]
+    if isinstance(x, tuple):
+        return tuple(json_copy(i) for i in x)
+    if isinstance(x, dict):
+        return {k: json_copy(i) for k, i in x.items()}
+    return x
+
+
 def check(kind, parse, spec, violations, dist):
+    if sum(dist.values()) % 2:
+        # every other spec has its equal sub-specs as ONE object (YAML aliases; a caller reusing a sub-spec)
+        spec = share_equal(spec)
+        dist["aliased"] += 0
     ids0 = []
     before = snapshot(spec, ids0)
     pristine = copy.deepcopy(spec)
@@ -62,6 +77,14 @@ def check(kind, parse, spec, violations, dist):
             same = False
         if not same:
             violations.append({"kind": "direct", "what": f"{kind}: second parse is not equal to the first", "spec": repr(pristine)[:300]})
+    # ... and it is what a structurally equal spec without any shared sub-object parses to
+    r0 = E.run_outcome(lambda: parse(copy.deepcopy(json_copy(pristine))))
+    try:
+        same0 = r0[0] == r1[0] and (r0[1] == r1[1])
+    except Exception:
+        same0 = False
+    if not same0:
+        violations.append({"kind": "direct", "what": f"{kind}: the parse depends on which sub-specs are one object", "spec": repr(pristine)[:300]})
     r3 = E.run_outcome(lambda: parse(spec))   # a third time, for good measure
     if r3[0] != r1[0]:
         violations.append({"kind": "direct", "what": f"{kind}: third parse outcome differs", "spec": repr(pristine)[:300]})
